@@ -70,7 +70,8 @@ MODELS = {
             [("FilterNode", "FilterNode-imm.cfg"), ("FilterNode", "FilterNode-def.cfg"), ("Controller", "Controller-relist.cfg")]),
     "C10": ([("Tree", "Tree-live.cfg")], [("Tree", "Tree-live.cfg"), ("Tree", "Tree-safety.cfg")]),
     "C11": ([("Tree", "Tree-live.cfg")], [("Tree", "Tree-live.cfg"), ("Tree", "Tree-safety.cfg")]),
-    "C12": ([("Tree", "Tree-live.cfg"), ("Lister", "Lister.cfg")], [("Tree", "Tree-live.cfg"), ("Tree", "Tree-safety.cfg"), ("Lister", "Lister.cfg")]),
+    "C12": ([("Tree", "Tree-live.cfg"), ("Lister", "Lister.cfg"), ("Lifecycle", "Lifecycle.cfg")],
+            [("Tree", "Tree-live.cfg"), ("Tree", "Tree-safety.cfg"), ("Lister", "Lister.cfg"), ("Lifecycle", "Lifecycle.cfg")]),
     "C13": ([("Lister", "Lister.cfg")], [("Lister", "Lister.cfg")]),
     "C14": ([("Controller", "Controller-relist.cfg")], [("Controller", "Controller-relist.cfg"), ("Controller", "Controller-relist-big.cfg")]),
     "C15": ([("CacheActor", "CacheActor.cfg")], [("CacheActor", "CacheActor.cfg")]),
